@@ -210,7 +210,7 @@ def rule_of_five(chk, db, rec_q):
                               {"record": rec_q})
 
 
-META_EXTRA = 'SLOTS-D / SLOTS-C (destroyed range = removed tail; construction at the first free slot); SRC (no source-destroying slot on a const source).'
+META_EXTRA = 'SLOTS-D / SLOTS-C (destroyed range = removed tail; construction at the first free slot); SRC (no source-destroying slot on a const source); VT (vtable value vs storage content through constructors, assignment, swap, destructor).'
 META = (META[0] + " " + META_EXTRA, META[1])
 
 
